@@ -83,9 +83,16 @@ func (c *CompressorGzip) Decompress(r io.Reader) (io.Reader, error) {
 }
 
 func (z *gzipReader) Read(p []byte) (n int, err error) {
+	if z.Reader == nil {
+		return 0, io.EOF // the reader went back to the pool at the end of the stream
+	}
 	n, err = z.Reader.Read(p)
 	if err == io.EOF {
-		z.pool.Put(z)
+		// Hand the gzip.Reader back under a wrapper of its own and let go of it:
+		// a caller that reads again after the end gets io.EOF from this wrapper,
+		// and the reader is in the pool once, not once per read.
+		z.pool.Put(&gzipReader{Reader: z.Reader, pool: z.pool})
+		z.Reader = nil
 	}
 	return n, err
 }
